@@ -374,7 +374,7 @@ def k1(res, rng, tier, drv):
   star_names = tier == "thorough"
   rng.shuffle(sigs)
   if tier == "quick":
-    sigs = sigs[:total_sigs // 3]   # seeded third of the signatures, all their calls
+    sigs = sigs[:total_sigs // 4]   # seeded quarter of the signatures, all their calls
   chunks = [sigs[i::NPROC * 4] for i in range(NPROC * 4)]
   jobs = [(c, rng.randrange(1 << 30), perms, star_names, drv.path) for c in chunks if c]
   with multiprocessing.get_context("fork").Pool(NPROC) as pool:
@@ -736,7 +736,7 @@ def correspond(res, rng, tier):
   t0 = time.time()
   n1, nt1, st1, dis1, ndis1 = k1(res, random.Random(rng.randrange(1 << 30)), tier, drv)
   t1 = time.time()
-  n_modules = 120 if tier == "quick" else 1200
+  n_modules = 100 if tier == "quick" else 900
   st2, nt2, samples, dis2 = k2(res, random.Random(rng.randrange(1 << 30)), tier, drv, n_modules)
   t2 = time.time()
   res.cov["evaluations"] = n1 + st2["calls"]
@@ -745,7 +745,7 @@ def correspond(res, rng, tier):
   res.cov["rule"] = (
       "K1: %d of the %d signatures with <=3 positional-only, <=3 positional-or-keyword, <=3 keyword-only parameters, "
       "defaults on every suffix of the positional parameters and every subset of the keyword-only ones, with/without "
-      "*args and **kwargs (quick: a seeded third, thorough: all) x every call with <=5 positionals and every keyword set of <=3 names from "
+      "*args and **kwargs (quick: a seeded quarter, thorough: all) x every call with <=5 positionals and every keyword set of <=3 names from "
       "the parameter names + one foreign name (%s; %s): Lean spec cpyBind vs really calling the function in CPython "
       "(outcome, TypeError kind by message, value of every parameter incl. *args tuple and ordered **kwargs dict) and "
       "vs inspect.signature(f).bind; enumeration is duplicate-free, non-trivial = signature has a name and the call an "
